@@ -207,6 +207,8 @@ def malformed(ctx, drv, rng):
         "arrival on a later row": lambda r: r[1].__setitem__(1, "0.5"),
         "arrival 0 on a later row": lambda r: r[1].__setitem__(1, "0"),
         "arrival 0.0 on a later row": lambda r: r[1].__setitem__(1, "0.0"),
+        "arrival and priority on a later row": lambda r: (r[1].__setitem__(1, "0.75"), r[1].__setitem__(2, "INTERACTIVE")),
+        "arrival and priority on a later row that names no parent (a second root)": lambda r: (r[1].__setitem__(1, "0.75"), r[1].__setitem__(2, "QUERY"), r[1].__setitem__(4, "")),
         "unknown priority": lambda r: r[2].__setitem__(2, "URGENT"),
         "unknown scaling law": lambda r: r[1].__setitem__(6, "cubic"),
         "undefined parent": lambda r: r[1].__setitem__(4, "op7"),
@@ -251,7 +253,7 @@ def run(ctx):
         drv.close()
     ctx.coverage["rule"] = ("random workloads (DAGs with several roots and multi-parent operators, seven laws, integers/decimals/tiny/huge/zero, explicit 0 vs unset memory) "
                             "through the real CSVWorkloadWriter and CSVWorkloadReader; rows and read-back structure also compared with the Lean model; "
-                            "nine hand-made malformed/well-formed files; non-trivial = a case that passed every comparison")
+                            "fifteen hand-made malformed/well-formed files; non-trivial = a case that passed every comparison")
     ctx.assumptions.append("cell text is CPython's repr of a float and csv quoting: modelled as opaque values, not verified")
 
 
